@@ -276,7 +276,7 @@ def ob_writer_step(ctx, kind, dims=1):
     return res
 
 
-def ob_writer_tour(ctx, kinds, dims=1, rates=(7, 3, 2, 5, 4)):
+def ob_writer_tour(ctx, kinds, dims=1, rates=(7, 3, 2, 5, 4), closed=True):
     """C03: the complete `create_tour` (real MIR: interval fold, departure stop, statistics fold, final clean-up pass) on a
     closed tour whose job activities have the given kinds, with the schedule of the forward simulation: the reported
     per-tour statistic equals the recomputation from routing data, vehicle costs and the visiting order (distance, duration,
@@ -284,9 +284,9 @@ def ob_writer_tour(ctx, kinds, dims=1, rates=(7, 3, 2, 5, 4)):
     the load on board after it (initial load = sum of static deliveries, then -delivery +pickup per activity; the
     arrival at the end reports what is left = the static pickups)."""
     k = len(kinds)
-    name = f'writer_tour[{",".join(kinds) or "empty"},dims={dims},rates={"/".join(map(str, rates))}]'
+    name = f'writer_tour[{",".join(kinds) or "empty"},dims={dims},rates={"/".join(map(str, rates))}{"" if closed else ",open"}]'
     res = Result(name)
-    res.bounds = (f'closed tour start + {k} job activities ({", ".join(kinds)}) + end, all at pairwise different locations; {dims} load dimension(s), amounts in '
+    res.bounds = (f'{"closed" if closed else "open"} tour start + {k} job activities ({", ".join(kinds)}){" + end" if closed else ""}, all at pairwise different locations; {dims} load dimension(s), amounts in '
                   f'[0,2^14]; times/distances integer-valued in [0,2^16]; cost rates (fixed, distance, driving, waiting, service) = {rates}; no reloads, breaks only as job kind, '
                   f'no clustering (commute/parking), no reserved times')
     t0 = time.time()
@@ -380,17 +380,19 @@ def ob_writer_tour(ctx, kinds, dims=1, rates=(7, 3, 2, 5, 4)):
             single = ArcV(Cell(env.struct('jobs::Single', places=VecV([]), dimens=StateV(dimens))))
             acts.append(env.activity(locs[i], dur, tws, FV.max_value(), arr, dep, job=single))
             nodes.append({'loc': locs[i], 'dur': dur, 'tws': tws, 'arr': arr, 'dep': dep, 'kind': kind})
-        arr_e = S('arr_end')
-        prev = nodes[-1]
-        env.assumptions.append(arr_e.v == prev['dep'].v + env.Dur(prev['loc'].t, locs[k + 1].t))
-        acts.append(env.activity(locs[k + 1], FV.const(0), FV.const(0), FV.max_value(), arr_e, arr_e, has_job=False))
-        nodes.append({'loc': locs[k + 1], 'dur': FV.const(0), 'tws': FV.const(0), 'arr': arr_e, 'dep': arr_e, 'kind': 'arrival'})
+        if closed:
+            arr_e = S('arr_end')
+            prev = nodes[-1]
+            env.assumptions.append(arr_e.v == prev['dep'].v + env.Dur(prev['loc'].t, locs[k + 1].t))
+            acts.append(env.activity(locs[k + 1], FV.const(0), FV.const(0), FV.max_value(), arr_e, arr_e, has_job=False))
+            nodes.append({'loc': locs[k + 1], 'dur': FV.const(0), 'tws': FV.const(0), 'arr': arr_e, 'dep': arr_e, 'kind': 'arrival'})
         # concrete, pairwise different rates (the cost is linear in the rates; symbolic rates x symbolic sums is non-linear)
         vc = {key: FV.const(r) for key, r in zip(('fixed', 'per_distance', 'per_driving_time', 'per_waiting_time', 'per_service_time'), rates)}
         zero_costs = {key: FV.const(0) for key in vc}      # the pragmatic format has no driver costs
         vdim = StateV({'vehicle_id': Opaque('"v1"'), 'vehicle_type': Opaque('"type1"'), 'shift_index': IV(0)})
-        actor = env.actor(locs[0], FV.const(0), locs[k + 1], FV.const(100000), vehicle_costs=env.costs(**vc), driver_costs=env.costs(**zero_costs), dimens=vdim)
-        tour = env.struct('solution::tour::Tour', activities=VecV(acts), jobs=symex.SetV(k), is_closed=BV(True))
+        actor = env.actor(locs[0], FV.const(0), locs[k + 1] if closed else None, FV.const(100000) if closed else FV.max_value(), vehicle_costs=env.costs(**vc),
+                          driver_costs=env.costs(**zero_costs), dimens=vdim)
+        tour = env.struct('solution::tour::Tour', activities=VecV(acts), jobs=symex.SetV(k), is_closed=BV(closed))
         route = env.struct('route::Route', actor=actor, tour=tour)
         po = ctx.layout.fields('domain::Problem')
         problem = Agg('struct', [ArcV(Cell(DynV('activity'))) if f == 'activity' else ArcV(Cell(DynV('transport'))) if f == 'transport'
@@ -433,8 +435,8 @@ def ob_writer_tour(ctx, kinds, dims=1, rates=(7, 3, 2, 5, 4)):
             F(stat, 'model::Statistic', 'duration').t == total_drive + serving + breaks + sum(waits, z3.IntVal(0)),
         ]
         stops = F(out, 'model::Tour', 'stops').items
-        if len(stops) != k + 2:
-            res.status, res.detail = 'violated', f'{name}: {len(stops)} stops for {k + 2} pairwise different locations'
+        if len(stops) != len(nodes):
+            res.status, res.detail = 'violated', f'{name}: {len(stops)} stops for {len(nodes)} pairwise different locations'
             break
         # loads: initial = sum of static deliveries; then per activity; distances cumulative
         # reload intervals: static deliveries of an interval come on board at its start (depot / reload), static pickups leave at its end
@@ -463,7 +465,7 @@ def ob_writer_tour(ctx, kinds, dims=1, rates=(7, 3, 2, 5, 4)):
                 load = F(point, 'model::PointStop', 'load').items
                 # a load without dimensions is written as [0]: a missing dimension reads as zero
                 rep = load[d].t if len(load) > d else z3.IntVal(0)
-                if si == k + 1:
+                if closed and si == k + 1:
                     # arrival: the code reports zero minus nothing for the arrival itself (static pickups are dropped at the end)
                     claims.append(rep == 0)
                 else:
@@ -477,7 +479,7 @@ def ob_writer_tour(ctx, kinds, dims=1, rates=(7, 3, 2, 5, 4)):
             break
         if not decide_claim(ctx, res, env, st, z3.And(*claims), dom, what=f'{name}: reported statistic, loads, distances, times == recomputation'):
             if res.status == 'violated' and res.model is not None and kinds.count('break') <= 1 and kinds.count('reload') <= 1 and rates[2] == rates[3] == rates[4]:
-                res.case = writer_case(res.model, env, nodes, demands, rates, dims)
+                res.case = writer_case(res.model, env, nodes, demands, rates, dims, closed)
             break
         if not no_panic(ctx, res, env, st, dom, what=name):
             break
@@ -495,7 +497,7 @@ def rfc3339(t):
     return datetime.datetime.fromtimestamp(int(t), datetime.timezone.utc).strftime('%Y-%m-%dT%H:%M:%SZ')
 
 
-def writer_case(m, env, nodes, demands, rates, dims):
+def writer_case(m, env, nodes, demands, rates, dims, closed=True):
     """Pragmatic problem + matrix JSON (index locations = position in the tour) and the visiting order, from a solver model."""
     ev = lambda t: m.eval(t, model_completion=True).as_long()
     n = len(nodes)
@@ -505,7 +507,7 @@ def writer_case(m, env, nodes, demands, rates, dims):
     jobs, order, ref = [], [], []
     breaks, reloads = [], []
     shipment = {}
-    for i, (node, (kind, pick, deli)) in enumerate(zip(nodes[1:-1], demands), start=1):
+    for i, (node, (kind, pick, deli)) in enumerate(zip(nodes[1:-1] if closed else nodes[1:], demands), start=1):
         if kind == 'reload':
             reloads.append({'location': {'index': i}, 'duration': float(ev(node['dur'].v)), 'times': [[rfc3339(ev(node['tws'].v)), far]]})
             order.append('reload')
@@ -539,13 +541,13 @@ def writer_case(m, env, nodes, demands, rates, dims):
     problem = {'plan': {'jobs': jobs},
                'fleet': {'vehicles': [{'typeId': 'type1', 'vehicleIds': ['v1'], 'profile': {'matrix': 'car'},
                                        'costs': {'fixed': float(rates[0]), 'distance': float(rates[1]), 'time': float(rates[2])},
-                                       'shifts': [dict({'start': {'earliest': rfc3339(dep0), 'location': {'index': 0}},
-                                                        'end': {'latest': far, 'location': {'index': n - 1}}}, **dict({'breaks': breaks} if breaks else {}, **({'reloads': reloads} if reloads else {})))],
+                                       'shifts': [dict(dict({'start': {'earliest': rfc3339(dep0), 'location': {'index': 0}}},
+                                                             **({'end': {'latest': far, 'location': {'index': n - 1}}} if closed else {})), **dict({'breaks': breaks} if breaks else {}, **({'reloads': reloads} if reloads else {})))],
                                        'capacity': [1000000] * dims}],
                          'profiles': [{'name': 'car'}]}}
     matrix = {'profile': 'car', 'travelTimes': [x for row in dur for x in row], 'distances': [x for row in dist for x in row]}
     return {'kind': 'writer_tour', 'problem': problem, 'matrix': matrix, 'order': order, 'dep0': dep0, 'jobs_ref': ref, 'dur': dur, 'dist': dist,
-            'rates': list(rates), 'dims': dims}
+            'rates': list(rates), 'dims': dims, 'closed': closed}
 
 
 def ob_statistic_sum(ctx):
